@@ -762,3 +762,95 @@ pub fn registry_atomicity() -> Value {
 	}
 	json!({"probe":"registry_atomicity","disagrees":false,"inputs_tried":14})
 }
+
+// ------------------------------------------------------------------------------------------
+/// C07: over WebSocket the request-size limit (and only it) decides whether a message is processed — on the default
+/// server and on the low-level `ws::connect` assembly alike.
+pub fn ws_request_limit_paths() -> Value {
+	use jsonrpsee_server::{ConnectionGuard, ConnectionState, Methods, ServerConfig, StopHandle, serve_with_graceful_shutdown, stop_channel, ws, http};
+	use jsonrpsee_core::middleware::RpcServiceBuilder;
+	use futures_util::FutureExt;
+
+	async fn low_level(cfg: ServerConfig) -> std::net::SocketAddr {
+		let listener = tokio::net::TcpListener::bind(std::net::SocketAddr::from(([127, 0, 0, 1], 0))).await.unwrap();
+		let local_addr = listener.local_addr().unwrap();
+		let (stop_handle, server_handle) = stop_channel();
+		let mut methods = RpcModule::new(());
+		methods.register_method("echo_len", |p, _, _| p.one::<String>().map(|s| s.len() as u64).unwrap_or(0)).unwrap();
+		#[derive(Clone)]
+		struct PerConnection { methods: Methods, stop_handle: StopHandle, conn_guard: ConnectionGuard, cfg: ServerConfig }
+		let per_conn = PerConnection { methods: methods.into(), stop_handle: stop_handle.clone(), conn_guard: ConnectionGuard::new(100), cfg };
+		tokio::spawn(async move {
+			loop {
+				let (sock, _) = tokio::select! {
+					res = listener.accept() => match res { Ok(s) => s, Err(_) => continue },
+					_ = per_conn.stop_handle.clone().shutdown() => break,
+				};
+				let per_conn = per_conn.clone();
+				let stop_handle2 = per_conn.stop_handle.clone();
+				let svc = tower::service_fn(move |req| {
+					let PerConnection { methods, stop_handle, conn_guard, cfg } = per_conn.clone();
+					let conn_permit = conn_guard.try_acquire().unwrap();
+					if ws::is_upgrade_request(&req) {
+						let rpc_service = RpcServiceBuilder::new();
+						let conn = ConnectionState::new(stop_handle, 0, conn_permit);
+						async move {
+							match ws::connect(req, cfg, methods, conn, rpc_service).await {
+								Ok((rp, conn_fut)) => { tokio::spawn(conn_fut); Ok(rp) }
+								Err(rp) => Ok(rp),
+							}
+						}.boxed()
+					} else {
+						async { Ok::<_, jsonrpsee_core::BoxError>(http::response::denied()) }.boxed()
+					}
+				});
+				tokio::spawn(serve_with_graceful_shutdown(sock, svc, stop_handle2.shutdown()));
+			}
+		});
+		tokio::spawn(server_handle.stopped());
+		local_addr
+	}
+	async fn default_server(cfg: ServerConfig) -> (std::net::SocketAddr, jsonrpsee_server::ServerHandle) {
+		let server = jsonrpsee_server::Server::builder().set_config(cfg).build("127.0.0.1:0").await.unwrap();
+		let addr = server.local_addr().unwrap();
+		let mut methods = RpcModule::new(());
+		methods.register_method("echo_len", |p, _, _| p.one::<String>().map(|s| s.len() as u64).unwrap_or(0)).unwrap();
+		(addr, server.start(methods))
+	}
+	rt().block_on(async {
+		let mut tried = 0;
+		// (request limit, response limit, payload size, must be processed?)
+		let cases = [(100u32, 10_000_000u32, 300usize, false), (100, 10_000_000, 20, true), (10_000_000, 120, 300, true), (10_000_000, 120, 20, true), (400, 400, 300, true)];
+		for (req_limit, rsp_limit, payload, processed) in cases {
+			for path in ["default server", "low-level ws::connect"] {
+				tried += 1;
+				let cfg = ServerConfig::builder().max_request_body_size(req_limit).max_response_body_size(rsp_limit).build();
+				let mut _keep = None;
+				let addr = if path == "default server" { let (a, h) = default_server(cfg).await; _keep = Some(h); a } else { low_level(cfg).await };
+				use jsonrpsee_client_transport::ws::WsTransportClientBuilder;
+				use jsonrpsee_core::client::{ReceivedMessage, TransportReceiverT, TransportSenderT};
+				let url = url::Url::parse(&format!("ws://{}", addr)).unwrap();
+				let (mut tx, mut rx) = WsTransportClientBuilder::default().max_request_size(20_000_000).max_response_size(20_000_000).build(url).await.unwrap();
+				let arg = "p".repeat(payload);
+				tx.send(json!({"jsonrpc":"2.0","id":1,"method":"echo_len","params":[arg]}).to_string()).await.unwrap();
+				let res = tokio::time::timeout(std::time::Duration::from_secs(5), rx.receive()).await;
+				let txt = match &res { Ok(Ok(ReceivedMessage::Text(t))) => t.clone(), Ok(Ok(ReceivedMessage::Bytes(b))) => String::from_utf8_lossy(b).to_string(), other => format!("{:?}", other.as_ref().map(|r| r.as_ref().map(|_| ()).map_err(|e| e.to_string()))) };
+				let v: Value = serde_json::from_str(&txt).unwrap_or(Value::Null);
+				let got_processed = v["result"] == json!(payload) && v["id"] == json!(1);
+				let rejected = v["error"]["code"] == json!(-32007);
+				// the connection must keep serving
+				let _ = tx.send(json!({"jsonrpc":"2.0","id":2,"method":"echo_len","params":["ok"]}).to_string()).await;
+				let alive = tokio::time::timeout(std::time::Duration::from_secs(5), rx.receive()).await;
+				let alive_ok = matches!(&alive, Ok(Ok(ReceivedMessage::Text(t))) if serde_json::from_str::<Value>(t).map(|v| v["result"] == json!(2)).unwrap_or(false));
+				let res = txt;
+				if got_processed != processed || (!processed && !rejected) || !alive_ok {
+					return json!({"probe":"ws_request_limit_paths","disagrees":true,
+						"input": format!("{path}: max_request_body_size={req_limit}, max_response_body_size={rsp_limit}, WebSocket call with a {payload}-byte parameter"),
+						"observed": format!("{}; a later small call on the same connection: {}", res, if alive_ok {"served"} else {"NOT served"}),
+						"expected": if processed {"processed (the message is within the REQUEST limit)".to_string()} else {"rejected with -32007 request too big; connection keeps serving".to_string()}});
+				}
+			}
+		}
+		json!({"probe":"ws_request_limit_paths","disagrees":false,"inputs_tried":tried,"bound":"5 limit/payload combinations x {default server, low-level ws::connect}"})
+	})
+}
